@@ -56,6 +56,13 @@ class Recorder:
         return token
 
 
+class FalsyRecorder(Recorder):
+    """A perfectly legal callback object that happens to be falsy (e.g. an empty container type)."""
+
+    def __len__(self):
+        return 0
+
+
 _TOKEN = re.compile(r'\s*(?:"((?:[^"\\]|\\.)*)"|([^\s\[\]=,;"]+)|(\[|\]|=|,|;|->|--))')
 
 
@@ -321,6 +328,7 @@ def run_case(concepts, case, spec):
     # only one callback customised (the other keeps its default), and a second export of the
     # same lattice object with other callbacks
     call(lat.graphviz, make_object_label=Recorder('L', literal=True), make_property_label=Recorder('M', literal=True))
+    call(lat.graphviz, make_object_label=FalsyRecorder('F'), make_property_label=FalsyRecorder('G'))
     call(lat.graphviz, make_object_label=Recorder('Q'))
     call(lat.graphviz, make_property_label=Recorder('R'))
     call(lat.graphviz)
